@@ -248,6 +248,30 @@ func (P *Program) loadSources(addr ssa.Value, deep bool) ([]ssa.Value, bool) {
 	if fa, ok := addr.(*ssa.FieldAddr); ok && deep {
 		return P.fieldSources(deref(fa.X.Type()), fa.Field)
 	}
+	// load through a pointer value whose every origin is the address of a local cell (or nil)
+	if _, isLoad := addr.(*ssa.UnOp); isLoad || isPhi(addr) {
+		roots := P.resolve(addr, deep)
+		var vals []ssa.Value
+		n := 0
+		for _, r := range roots {
+			if isNilConst(r) {
+				continue
+			}
+			a, ok := r.(*ssa.Alloc)
+			if !ok {
+				return nil, false
+			}
+			n++
+			sv, _, _ := P.CellStores(a)
+			if len(sv) == 0 {
+				sv = []ssa.Value{ssa.NewConst(nil, deref(a.Type()))}
+			}
+			vals = append(vals, sv...)
+		}
+		if n > 0 {
+			return vals, true
+		}
+	}
 	return nil, false
 }
 
@@ -632,3 +656,5 @@ func isRangeIndex(idx ssa.Value) bool {
 	}
 	return false
 }
+
+func isPhi(v ssa.Value) bool { _, ok := v.(*ssa.Phi); return ok }
